@@ -59,6 +59,17 @@ package cose
 //@ func normalizedLabel(key)
 //@   ensures [ok=>hashable] result1 ==> hashable(typeof(key)) && hashable(typeof(result0)) && (typeof(result0) == type(string) || typeof(result0) == type(int64))
 //@   ensures [identity] (result1 && (typeof(key) == type(string) || typeof(key) == type(int64))) ==> result0 == key
+// the label go-cose encodes: every integer kind becomes int64 by Go conversion (uint and uint64 above MaxInt64 wrap)
+//@   ensures [int] typeof(key) == type(int) ==> result1 && result0 == box(convert(unbox(key, type(int)), type(int64)))
+//@   ensures [int8] typeof(key) == type(int8) ==> result1 && result0 == box(convert(unbox(key, type(int8)), type(int64)))
+//@   ensures [int16] typeof(key) == type(int16) ==> result1 && result0 == box(convert(unbox(key, type(int16)), type(int64)))
+//@   ensures [int32] typeof(key) == type(int32) ==> result1 && result0 == box(convert(unbox(key, type(int32)), type(int64)))
+//@   ensures [uint] typeof(key) == type(uint) ==> result1 && result0 == box(convert(unbox(key, type(uint)), type(int64)))
+//@   ensures [uint8] typeof(key) == type(uint8) ==> result1 && result0 == box(convert(unbox(key, type(uint8)), type(int64)))
+//@   ensures [uint16] typeof(key) == type(uint16) ==> result1 && result0 == box(convert(unbox(key, type(uint16)), type(int64)))
+//@   ensures [uint32] typeof(key) == type(uint32) ==> result1 && result0 == box(convert(unbox(key, type(uint32)), type(int64)))
+//@   ensures [uint64] typeof(key) == type(uint64) ==> result1 && result0 == box(convert(unbox(key, type(uint64)), type(int64)))
+//@   ensures [label-kinds] result1 <==> (typeof(key) == type(string) || typeof(key) == type(int64) || typeof(key) == type(int) || typeof(key) == type(int8) || typeof(key) == type(int16) || typeof(key) == type(int32) || typeof(key) == type(uint) || typeof(key) == type(uint8) || typeof(key) == type(uint16) || typeof(key) == type(uint32) || typeof(key) == type(uint64))
 //@   pure
 
 // stmt C07/C13 (COSE crit rules): the scheme label, the authority time label under the authority scheme and the expiry
